@@ -184,6 +184,9 @@ def parseSched (s : String) : List Ev :=
     | 'g' :: r => some (.give ((String.ofList r).toNat?.getD 0))
     | 'i' :: _ => some .intr
     | 'l' :: r => some (.lie ((String.ofList r).toNat?.getD 0))
+    -- a source whose `read` fills the slice and then panics: for the reader the same event as a
+    -- lying read (no byte count is learnt, the call unwinds, the window stays)
+    | 'p' :: r => some (.lie ((String.ofList r).toNat?.getD 0))
     | _ => none
 
 def b2s (b : Bool) : String := if b then "1" else "0"
